@@ -95,3 +95,8 @@ func VerifC08FeatureListRead(data []byte, pos int64) (FeatureListInfo, error) {
 
 // VerifC08ScriptListEncode exposes ScriptListInfo.encode.
 func VerifC08ScriptListEncode(info ScriptListInfo) []byte { return info.encode() }
+
+// VerifC08ScriptListRead exposes readScriptList.
+func VerifC08ScriptListRead(data []byte, pos int64) (ScriptListInfo, error) {
+	return readScriptList(parser.New(bytes.NewReader(data)), pos)
+}
